@@ -44,10 +44,10 @@ COMMON_TRUSTED = [
     "harness/gen_dump.c + gcc: coq/Gen.v is the graph of the compiled tables/constants of the current sources",
     "tools/cleaf.py + clang front end (typed AST): coq/GenLeaf.v is the translation of 30 leaf functions (bit-field extractors, weighted level, "
     "AF bitmap get/set, rdsparser_ct_init and getters), proved equal to the model's functions for all arguments in the C ranges; integer conversions wrap, signed overflow assumed absent",
-    "tools/cmid.py + clang front end: coq/GenMid.v is the translation of 36 middle-layer functions (the seven RDSPARSER_BUFFER_UPDATE instances, "
+    "tools/cmid.py + clang front end: coq/GenMid.v is the translation of 49 functions (the seven RDSPARSER_BUFFER_UPDATE instances, "
     "rdsparser_buffer_add_af, rdsparser_string_convert / _update_single (both build configurations), rdsparser_string_update, "
     "rdsparser_parser_update_string, the eight setters with their callbacks as events, rdsparser_ecc_lookup with its tables, "
-    "rdsparser_group_parse, rdsparser_group0/1/2/4/10_parse, rdsparser_string_get_available / _clear, rdsparser_parser_process, rdsparser_clear, the three setters of the settings) from struct members read to members written; memory model: members of one struct never alias, a string "
+    "rdsparser_group_parse, rdsparser_group0/1/2/4/10_parse, rdsparser_string_get_available / _clear, rdsparser_parser_process, rdsparser_clear, the three setters of the settings, the twelve registration functions and rdsparser_set_user_data) from struct members read to members written; memory model: members of one struct never alias, a string "
     "object is (size, content[], errors[]) and its accessors' pointer arithmetic is not translated; bridged to the model in Properties_Mid_Cxx.v "
     "(a second tie besides the correspondence check: proved on the pinned tree; when a change to the sources defeats translation or proof this is "
     "recorded in the notes and the search for a failing input is doubled, it is not a violation by itself)",
@@ -621,6 +621,7 @@ MID = {
     "C11": (_BUF + _SET + ["m_ecc_lookup", "m_group1_parse"], "Properties_Mid_C11"),
     "C12": (["m_group4_parse"], "Properties_Mid_C12"),
     "C13": (["m_string_clear", "m_clear"], "Properties_Mid_C13"),
+    "C15": (["m_set_user_data", "m_register_pi", "m_register_pty", "m_register_tp", "m_register_ta", "m_register_ms", "m_register_ecc", "m_register_country", "m_register_af", "m_register_ps", "m_register_rt", "m_register_ptyn", "m_register_ct"], "Properties_Mid_C15"),
     "C17": (["m_set_text_correction", "m_set_text_progressive", "m_set_extended_check"], "Properties_Mid_C17"),
     "C20": (["m_string_convert", "m_string_convert_n", "m_update_single_n"], "Properties_Mid_C20"),
 }
